@@ -419,6 +419,11 @@ def obj_ops_alphabet():
         ("tconvkeep", 6, "tai"), ("tconvkeep", "T", "utc"), ("tfmt", "T", "decimalyear"), ("tfmt", 6, "decimalyear"),
         # position deltas: conversions depend on the reference position
         ("conv", 9, "enu"), ("conv", 9, "trs"), ("setitem", 10, 4), ("setref", 9, 5), ("conv", 11, "enu"), ("setitem", 11, 1),
+        # position+velocity arrays: derived quantities towards `other`, Keplerian elements and the anomalies derived from them
+        ("derived", 12, "azimuth"), ("derived", 12, "elevation"), ("derived", 12, "distance"), ("setother", 12, 5), ("setother", 12, 4),
+        ("conv", 12, "kepler"), ("conv", 13, "trs"), ("kprop", 13, "M"), ("kprop", 13, "f"), ("kprop", 13, "E"), ("ksetitem", 13, 5),
+        ("ksetitem", 13, 1), ("kprop", 14, "M"), ("kprop", 14, "f"), ("ksetitem", 14, 5), ("conv", 14, "trs"), ("setitem6", 12, 3),
+        ("kprop", "K", "M"), ("kprop", "K", "f"), ("kslice", 13, (1, 3)), ("ksetitem", "K", 5),
     ]
 
 
@@ -445,7 +450,40 @@ def build_objects(mods):
     objs.append(PD(np.array([[10.0, 20.0, 30.0], [1.0, -2.0, 3.0], [0.5, 0.25, -7.0], [100.0, 0.0, 0.0]]), system="trs", ref_pos=ref))  # 9
     objs.append(ref)                                                 # 10 reference position of 9
     objs.append(PD(np.array([5.0, -6.0, 7.0]), system="trs", ref_pos=P(palette_xyz(4, (3,)), system="trs")))  # 11 single delta
+    PV = position.PosVel
+    vel = np.array([[10.0, 7500.0, 20.0], [-300.0, 7000.0, 900.0], [5.0, -7400.0, 1500.0], [2000.0, 6000.0, -3000.0]])
+    objs.append(PV(np.hstack([palette_xyz(2, (4, 3)) * 1.1, vel]), system="trs", other=other))   # 12 posvel with other
+    kep = np.array([[7.0e6, 0.01, 0.9, 1.0, 2.0, 0.5], [8.0e6, 0.2, 2.0, -1.0, 4.0, -2.5], [2.6e7, 0.7, 0.3, 3.0, 0.1, 3.0], [4.2e7, 0.05, 1.5, 0.2, 5.5, 1.2]])
+    objs.append(PV(kep, system="kepler"))                           # 13 Keplerian elements (n, 6)
+    objs.append(PV(kep[1].copy(), system="kepler"))                 # 14 single set of elements
     return objs
+
+
+def _pos_factory(mods, o):
+    position = mods[6]
+    return {"PositionArray": position.Position, "PosVelArray": position.PosVel, "PositionDeltaArray": position.PositionDelta,
+            "PosVelDeltaArray": position.PosVelDelta}.get(getattr(o, "cls_name", None))
+
+
+def twin_of(mods, o, depth=0):
+    """a freshly built object with the current contents of `o` (values, system, ellipsoid, and fresh twins of the
+    attached other / ref_pos): what the property says a read may depend on"""
+    f = _pos_factory(mods, o)
+    if f is None or depth > 2:
+        return None
+    kw = {"system": o.system}
+    if getattr(o, "ellipsoid", None) is not None and "Delta" not in o.cls_name:
+        kw["ellipsoid"] = o.ellipsoid
+    for att in ("other", "ref_pos"):
+        try:
+            v = getattr(o, att, None)
+        except Exception:
+            v = None
+        if v is not None:
+            t = twin_of(mods, v, depth + 1)
+            if t is not None:
+                kw[att] = t
+    return f(np.array(np.asarray(o), dtype=float, copy=True), **kw)
 
 
 def run_obj_history(w: ObjWorld, ops, rng_state=None):
@@ -454,7 +492,20 @@ def run_obj_history(w: ObjWorld, ops, rng_state=None):
     obs = []
     last = 3
     tlast = 6
+    klast = 13
     tainted = set()
+
+    def ptwin(o, arg, tgt):
+        # the same read on a freshly built object with the same current contents (never for results the caller wrote into)
+        if not w.twins or any(t[0] == tgt for t in tainted):
+            return
+        try:
+            t = twin_of(mods, o)
+            if t is not None:
+                obs.append(("ptwin",) + w.observe(getattr(t, arg)))
+        except Exception as e:
+            obs.append(("ptwin", "ERR", type(e).__name__))
+
     for op in ops:
         w.before()
         kind, tgt, arg = op
@@ -462,6 +513,8 @@ def run_obj_history(w: ObjWorld, ops, rng_state=None):
             tgt = last
         if tgt == "T":
             tgt = tlast
+        if tgt == "K":
+            tgt = klast
         o = w.objs[tgt]
         try:
             if kind == "conv":
@@ -469,11 +522,34 @@ def run_obj_history(w: ObjWorld, ops, rng_state=None):
                     arg = "llh"
                 r = getattr(o, arg)
                 obs.append(("skip-tainted",) if (tgt, arg) in tainted else w.observe(r))
+                if (tgt, arg) not in tainted:
+                    ptwin(o, arg, tgt)
             elif kind == "derived":
                 if getattr(o, "other", None) is None:
                     obs.append(("no-other",))
                 else:
                     obs.append(w.observe(getattr(o, arg)))
+                    ptwin(o, arg, tgt)
+            elif kind == "kprop":
+                obs.append(w.observe(getattr(o, arg)))
+                ptwin(o, arg, tgt)
+            elif kind == "ksetitem":
+                # change one element (column `arg`) of the first set of elements in place
+                if np.ndim(o) == 2:
+                    o[0, arg] = float(np.asarray(o)[0, arg]) * 0.5 + 0.1
+                else:
+                    o[arg] = float(np.asarray(o)[arg]) * 0.5 + 0.1
+                tainted = {t for t in tainted if t[0] != tgt}
+                obs.append(("kset",))
+            elif kind == "kslice":
+                r = o[arg[0]:arg[1]]
+                w.objs.append(r)
+                klast = len(w.objs) - 1
+                obs.append(w.observe(r))
+            elif kind == "setitem6":
+                o[0] = np.hstack([palette_xyz(arg + 20, (3,)), [100.0 * arg, 7000.0, -50.0 * arg]])
+                tainted = {t for t in tainted if t[0] != tgt}
+                obs.append(("set",))
             elif kind == "setitem":
                 o[0] = palette_xyz(arg + 20, (3,))
                 tainted = {t for t in tainted if t[0] != tgt}
@@ -782,8 +858,8 @@ def run(ctx: Ctx):
     if not ctx.thorough:
         pass
     # read – change – read again, for every reading and every changing operation (and through a row view)
-    reads = [o for o in alphabet if o[0] in ("conv", "derived", "tconv", "tfmt")]
-    muts = [o for o in alphabet if o[0] in ("setitem", "setother", "setref", "writeres", "twrite")]
+    reads = [o for o in alphabet if o[0] in ("conv", "derived", "tconv", "tfmt", "kprop")]
+    muts = [o for o in alphabet if o[0] in ("setitem", "setother", "setref", "writeres", "twrite", "ksetitem", "setitem6")]
     for r in reads:
         for m in muts:
             seqs.append((r, m, r))
@@ -819,9 +895,31 @@ def run(ctx: Ctx):
                     ctx.violate("depends-on-history:time-conversion",
                                 f"a scale conversion gave {str(a[i])[:150]} but the same conversion of a freshly built equal time gave {str(a[i + 1])[:150]}", case)
                     break
+        for i in range(len(a) - 1):
+            if isinstance(a[i + 1], tuple) and a[i + 1][:1] == ("ptwin",):
+                x, y = a[i], a[i + 1][1:]
+                okp = False
+                if len(y) == 4 and len(x) >= 4 and x[0] != "ERR":
+                    try:
+                        vx, vy = np.asarray(json.loads(x[3]), dtype=float), np.asarray(json.loads(y[3]), dtype=float)
+                        okp = (x[0] == y[0] and x[1] == y[1] and x[2] == y[2] and vx.shape == vy.shape
+                               and bool(np.all((np.abs(vx - vy) <= 1e-9 * np.maximum(1.0, np.abs(vy))) | (np.isnan(vx) & np.isnan(vy)))))
+                    except (ValueError, TypeError):
+                        okp = x[:4] == y[:4]
+                elif x[:1] == ("ERR",) and y[:1] == ("ERR",):
+                    okp = True
+                elif x[:1] == ("nt",) and y[:1] == ("nt",):
+                    okp = True   # named tuples (multi-part results) are compared by the flushed run only
+                if not okp:
+                    nops = len([z for z in a[:i + 1] if not (isinstance(z, tuple) and z[:1] in (("twin",), ("ptwin",)))])
+                    op = seq[nops - 1] if 0 < nops <= len(seq) else ("?", "?", "?")
+                    ctx.violate(f"depends-on-history:{op[0]}:{op[2] if isinstance(op[2], str) else ''}",
+                                f"step {nops - 1} ({op}) gave {str(a[i])[:150]} but the same read on a freshly built object with the same "
+                                f"current contents gave {str(a[i + 1])[:150]}", case)
+                    break
         if a != b:
             k = next(i for i in range(len(a)) if a[i] != b[i])
-            ops_k = [i for i, x in enumerate(a[:k + 1]) if not (isinstance(x, tuple) and x[:1] == ("twin",))]
+            ops_k = [i for i, x in enumerate(a[:k + 1]) if not (isinstance(x, tuple) and x[:1] in (("twin",), ("ptwin",)))]
             op = seq[len(ops_k) - 1] if ops_k and len(ops_k) <= len(seq) else ("?", "?", "?")
             ctx.violate(f"history-visible:{op[0]}:{op[2] if isinstance(op[2], str) else ''}",
                         f"step {len(ops_k) - 1} ({op}) gave {str(a[k])[:120]} naturally but {str(b[k])[:120]} with caches flushed", case)
